@@ -450,6 +450,16 @@ func execStep(env *Env, st *Step) Result {
 			return errResult(err)
 		}
 		return fontResult(f, false)
+	case "loadmissing":
+		// error path: a font file that does not exist (the same name for all tasks)
+		fam := canvas.NewFontFamily("fam")
+		err := fam.LoadFontFile(filepath.Join(env.FontDir, fmt.Sprintf("missing-%d.ttf", st.Font%2)), styles[st.Style%4])
+		if err == nil {
+			return Result{Kind: "font", Hash: 1, Brief: "missing font file loaded?"}
+		}
+		h := newHasher()
+		h.str(strings.ReplaceAll(err.Error(), env.FontDir, "<fontdir>"))
+		return Result{Kind: "err", Hash: h.h, Brief: strings.ReplaceAll(err.Error(), env.FontDir, "<fontdir>")}
 	case "fontfamily":
 		i := st.Font % len(env.Bytes)
 		fam := canvas.NewFontFamily("fam")
